@@ -84,8 +84,13 @@ func sqlExtraPhases(eval func(w *fw.W, s, aux string), heavy bool) []fw.Phase {
 			}, Eval: eval},
 		{Name: "byte-sweep", Space: "every byte value 0..255 at each syntactic position of 28 canonical statements", Share: 1,
 			Run: func(w *fw.W) { list(w, alpha.ByteSweepSQL()) }, Eval: eval},
-		{Name: "count-sweep", Space: "4 attacks preceded by k copies of each of 6 units for every k in 0..300", Share: 1,
+		{Name: "count-sweep", Space: "4 attacks preceded by k copies of each of 12 units (list items, parentheses, blanks, qualified names, the three comment forms, words, strings) for every k in 0..300; a MySQL-only attack behind k '--x' / '#' comments", Share: 1,
 			Run: func(w *fw.W) { list(w, alpha.CountSweepSQL()) }, Eval: eval},
+		{Name: "keyword-sweep", Space: "every non-fingerprint key of the current keyword table (upper, lower, with U+017F / U+0131 / U+212A for its first s / i / k) in 19 statement positions (alone, called, after ';', after UNION SELECT, before '.', before a back-tick, between operands, doubled)", Share: 1,
+			Run: func(w *fw.W) { list(w, keywordSweep()) }, Eval: eval},
+		{Name: "separator-sweep", Space: "every sequence of <=3 core tokens and 8 canonical attacks with all blanks replaced by each other separator (TAB LF VT FF CR 0xA0 NUL and an inline comment)", Share: 1,
+			Run: func(w *fw.W) { list(w, separatorSweep()) }, Eval: eval},
+		deltaSQLPhase(eval),
 	}
 }
 
@@ -106,6 +111,7 @@ func htmlExtraPhases(eval func(w *fw.W, s, aux string), heavy bool) []fw.Phase {
 			Run: func(w *fw.W) { list(w, alpha.ByteSweepHTML()) }, Eval: eval},
 		{Name: "count-sweep", Space: "5 vectors preceded by k copies of each of 5 units for every k in 0..300, in 3 breakout forms", Share: 1,
 			Run: func(w *fw.W) { list(w, alpha.CountSweepHTML()) }, Eval: eval},
+		deltaHTMLPhase(eval),
 	}
 }
 
